@@ -138,7 +138,34 @@ fn sweep(stride: u64, offset: u64) {
             })
         })
         .collect();
-    let mut total = 0;
+    // calc handles: every non-null 8-aligned pointer is recognised, returned intact and not confused with a non-calc kind
+    {
+        let noncalc = [
+            CompactLength::LENGTH_TAG,
+            CompactLength::PERCENT_TAG,
+            CompactLength::AUTO_TAG,
+            CompactLength::FR_TAG,
+            CompactLength::MIN_CONTENT_TAG,
+            CompactLength::MAX_CONTENT_TAG,
+            CompactLength::FIT_CONTENT_PX_TAG,
+            CompactLength::FIT_CONTENT_PERCENT_TAG,
+        ];
+        let mut rng = crate::rng::Rng::new(offset ^ 0xCA1C);
+        let mut shown = 0;
+        for k in 1..=40_000u64 {
+            let p: u64 = if k <= 20_000 { k * 8 } else { (rng.next() & !7).max(8) };
+            let r = std::panic::catch_unwind(|| CompactLength::calc(p as *const ()));
+            let ok = match r {
+                Ok(c) => c.is_calc() && c.calc_value() as u64 == p && !noncalc.contains(&c.tag()) && c.uses_percentage() && !c.is_auto() && !c.is_length_or_percentage() && !c.is_fr(),
+                Err(_) => false,
+            };
+            if !ok && shown < 3 {
+                println!("FAIL 8 {}", p);
+                shown += 1;
+            }
+        }
+    }
+    let mut total = 40_000;
     for h in handles {
         let (n, f) = h.join().unwrap();
         total += n;
